@@ -149,6 +149,16 @@ def c13(rng):
     wa = bs(T.make_single_sig_witness(SEEDS[a], sf, flh)); wb = bs(T.make_single_sig_witness(SEEDS[b], sf, flh))
     out.append(('multisig[A,A,B] 2-of-3: A twice (the same signature)', [wa + wa, bs(lkr)], sf, cfg, False))
     out.append(('multisig[A,A,B] 2-of-3: A and B', [wa + wb, bs(lkr)], sf, cfg, True))
+    # one holder signing the same fields twice under two different permitted flags must not meet a quorum of two
+    f2 = 1 << (int(rng.choice(list(sf))[-1]) - 1)
+    lk2 = T.make_multisig_lock([PUBS[a], PUBS[b], PUBS[c_]], 2, '%02x' % f2)
+    wa0 = bs(T.make_single_sig_witness(SEEDS[a], sf, '00')); wa1 = bs(T.make_single_sig_witness(SEEDS[a], sf, '%02x' % f2))
+    wb0 = bs(T.make_single_sig_witness(SEEDS[b], sf, '00'))
+    out.append(('multisig[A,B,C] 2-of-3: A twice under two different permitted flags', [wa0 + wa1, bs(lk2)], sf, cfg, False))
+    out.append(('multisig[A,B,C] 2-of-3: A twice under two different permitted flags (other order)', [wa1 + wa0, bs(lk2)], sf, cfg, False))
+    out.append(('multisig[A,B,C] 2-of-3: A (flagged) and B', [wa1 + wb0, bs(lk2)], sf, cfg, True))
+    lk3 = T.make_multisig_lock([PUBS[a], PUBS[b], PUBS[c_]], 3, '%02x' % f2)
+    out.append(('multisig[A,B,C] 3-of-3: A twice under two flags and B', [wa0 + wa1 + wb0, bs(lk3)], sf, cfg, False))
     out.append(('multisig[A,A,B] 2-of-3: B and an outsider', [wb + bs(T.make_single_sig_witness(SEEDS[c_], sf, flh)), bs(lkr)], sf, cfg, False))
     # graftroot
     lock = T.make_graftroot_lock(PUBS[a], alh)
@@ -391,6 +401,15 @@ _C16_CTX = [
     ('def/call', lambda b: _OPB('DEF') + b'\x05' + _u16(len(b)) + b + _OPB('CALL') + b'\x05'),
     ('eval', lambda b: (bytes([3, len(b)]) + b if len(b) > 1 else bytes([2]) + b) + _OPB('EVAL')),
     ('if_else/else/if', lambda b: b'\x00' + _OPB('IF_ELSE') + _u16(0) + _u16(len(b) + 4) + (b'\x01' + _OPB('IF') + _u16(len(b)) + b)),
+    # inside a loop body that runs once (pop the condition, the instruction, false to end the loop; the false is popped after the loop)
+    ('loop', lambda b: b'\x01' + _OPB('LOOP') + _u16(len(b) + 2) + (_OPB('POP0') + b + b'\x00') + _OPB('POP0')),
+    # at top level AFTER a loop whose body ran once
+    ('after-loop', lambda b: b'\x01' + _OPB('LOOP') + _u16(2) + (_OPB('POP0') + b'\x00') + _OPB('POP0') + b),
+    # inside an EXCEPT body (a raise there propagates), and at top level after a TRY whose body raised
+    ('except', lambda b: _OPB('TRY_EXCEPT') + _u16(2) + b'\x00' + _OPB('VERIFY') + _u16(len(b)) + b),
+    ('after-try', lambda b: _OPB('TRY_EXCEPT') + _u16(2) + b'\x00' + _OPB('VERIFY') + _u16(0) + b),
+    ('after-call', lambda b: _OPB('DEF') + b'\x05' + _u16(1) + b'\x01' + _OPB('CALL') + b'\x05' + _OPB('POP0') + b),
+    ('loop/if', lambda b: b'\x01' + _OPB('LOOP') + _u16(len(b) + 6) + (_OPB('POP0') + b'\x01' + _OPB('IF') + _u16(len(b)) + b + b'\x00') + _OPB('POP0')),
 ]
 
 
